@@ -298,3 +298,90 @@ def catch_expr(c):
 K.FAMILIES["kind"] = (gen_kind_case, run_kind_impl, kind_expr)
 K.FAMILIES["catch"] = (gen_catch_case, run_catch_impl, catch_expr)
 K.HEADER = K.HEADER.replace("Distrib Run.", "Distrib Kinds Run.")
+
+
+# ---------------------------------------------------------------------------
+# boundary functions (coq/Boundary.v): impervious rain / evaporation, simple deposition, house demand
+# ---------------------------------------------------------------------------
+def gen_boundary_case(r, maxops):
+    adds = r.sample(["phosphate", "ammonia", "solids", "salt"], r.randint(0, 2))
+    nons = ["temperature"] + r.sample(["ph", "do"], r.randint(0, 1))
+    area = r.choice([F(1), F(50), F(7, 2), F(200)])
+    c = {"kind": "boundary", "cls": "ImperviousSurface", "adds": adds, "nons": nons, "area": area,
+         "pore": r.choice([F(0), F(1, 100), F(1, 20)]), "coef": r.choice([F(1), F(1, 2), F(3, 4)]),
+         "load": [r.choice([F(0), F(1, 1000), F(1, 50)]) for _ in adds],
+         "init": r.choice([F(0), F(1, 4), F(3)]),
+         "pop": r.choice([F(0), F(10), F(35), F(100)]), "pc": r.choice([F(0), F(1, 8), F(3, 20)]),
+         "dload": [r.choice([F(0), F(1, 100), F(1, 8)]) for _ in adds], "ctemp": F(r.choice([15, 30])),
+         "w": r.choice([F(1, 5), F(0), F(1, 2)])}
+    ops = []
+    for _ in range(r.randint(1, maxops)):
+        x = r.random()
+        if x < 0.55:
+            ops.append(("rain", r.choice([F(0), F(1, 1000), F(1, 100), F(1, 20)]), r.choice([F(0), F(1, 500), F(1, 100), F(1, 10)]), F(r.randint(2, 25))))
+        elif x < 0.75:
+            ops.append(("dep",))
+        else:
+            ops.append(("house", F(r.randint(2, 25))))
+    c["ops"] = ops
+    return c
+
+
+def run_boundary_impl(c):
+    from wsimod.nodes.demand import ResidentialDemand
+    from wsimod.nodes.land import Land
+    part = K.Part(c["adds"], c["nons"])
+    data = {}
+    land = Land(name="land", data_input_dict=data,
+                surfaces=[{"type_": "ImperviousSurface", "surface": "urban", "area": Ex(c["area"]), "pore_depth": Ex(c["pore"]),
+                           "et0_to_e": Ex(c["coef"]), "pollutant_load": {n: Ex(v) for n, v in zip(c["adds"], c["load"])},
+                           "initial_storage": Ex(c["init"])}])
+    land.t = 0
+    surf = land.surfaces[0]
+    load = {n: Ex(v) for n, v in zip(c["adds"], c["dload"])}
+    load.update({n: Ex(7) for n in c["nons"]})
+    dem = ResidentialDemand(name="d", population=Ex(c["pop"]), per_capita=Ex(c["pc"]), pollutant_load=load, data_input_dict=data,
+                            constant_temp=Ex(c["ctemp"]), constant_weighting=Ex(c["w"]))
+    dem.t = 0
+    out = []
+    for op in c["ops"]:
+        if op[0] == "rain":
+            data[("precipitation", 0)] = Ex(op[1])
+            data[("et0", 0)] = Ex(op[2])
+            data[("temperature", 0)] = Ex(op[3])
+            p, e = surf.precipitation_evaporation()
+            out += C.encq(frac(p["volume"])) + C.encq(frac(e["volume"]))
+        elif op[0] == "dep":
+            p, _ = surf.simple_deposition() if c["adds"] else (part.d((F(0), [], [F(0)] * part.nn)), None)
+            out += part.ev(p)
+        else:
+            data[("temperature", 0)] = Ex(op[1])
+            out += part.ev(dem.get_house_demand())
+        out += part.ev(surf.storage)
+    return out
+
+
+def boundary_expr(c):
+    na, nn = len(c["adds"]), len(c["nons"])
+    init = f"(mkV {C.qlit(c['init'])} [] [])"
+    cap = c["area"] * c["pore"]
+    lines = []
+    t = f"(t_init {C.qlit(cap)} {init} [] (2#1))"
+    # the run is a left fold written out as nested lets by the generator of expressions
+    body = "[]"
+    steps = []
+    for op in c["ops"]:
+        if op[0] == "rain":
+            tn = "[" + "; ".join([C.qlit(op[3])] + ["0"] * (nn - 1)) + "]"
+            steps.append(f"BRain {C.qlit(op[1])} {C.qlit(op[2])} {tn}")
+        elif op[0] == "dep":
+            steps.append("BDep")
+        else:
+            steps.append(f"BHouse {C.qlit(op[1])}")
+    others = "[" + "; ".join(["(7#1)"] * (nn - 1)) + "]"
+    return (f"run_boundary {na} {nn} {C.qlit(c['area'])} {C.qlit(c['coef'])} {C.veclit(c['load'])} {C.qlit(c['pop'])} {C.qlit(c['pc'])} "
+            f"{C.veclit(c['dload'])} {C.qlit(c['ctemp'])} {C.qlit(c['w'])} {others} {t} [{'; '.join(steps)}]")
+
+
+K.FAMILIES["boundary"] = (gen_boundary_case, run_boundary_impl, boundary_expr)
+K.HEADER = K.HEADER.replace("Distrib Kinds Run.", "Distrib Kinds Boundary Run.")
